@@ -39,7 +39,7 @@ def answerCore (fs : List (String × String)) : E String := do
   let N ← needNat fs "N"
   let D ← needNat fs "D"
   if hN : 0 < N then
-    let Fa ← needMat fs "feat" N D
+    let Fa ← needInput fs "feat" N D
     let F : Mat N D Fix := matOf Fa N D
     if op == "npe" || op == "lltsa" || op == "lpp" then
       let Wa ← needMat fs "W" N N
@@ -70,9 +70,9 @@ def answerCore (fs : List (String × String)) : E String := do
       if (← need fs "uniform") != "1" then return "res=SKIP:nonuniform-neighbour-lists"
       let nb ← needNb fs "nb" N hN
       -- the sample-space matrices M and B of the property, from the raw inputs
-      let κa ← needMat fs "kern" N N
+      let (κa, kexp) ← needMatNorm fs "kern" N N
       let κ : Mat N N Fix := matOf κa N N
-      let da ← needMat fs "dist" N N
+      let da ← needInput fs "dist" N N
       let dist : Mat N N Fix := matOf da N N
       match (if method == "lpp" then knnContractBy (fun i j => dist i j) nb else knnContract κ nb) with
       | some e => return s!"res=BROKEN:neighbours {e}"
@@ -92,11 +92,11 @@ def answerCore (fs : List (String × String)) : E String := do
           let pr := lppProblemD L.get Dg.get F
           pure (L.data, some Dg.data, pr.1.data, pr.2.data)
         else if method == "npe" then do
-          let (M, _, _, _) ← runModelLle hN fs κ nb
+          let (M, _, _, _) ← runModelLle hN fs κ nb kexp
           let pr := npeProblemD (matOf M N N) F
           pure (M, none, pr.1.data, pr.2.data)
         else do
-          let (M, _, _, _) ← runModelEig hN fs κ nb false
+          let (M, _, _, _) ← runModelEig hN fs κ nb false kexp
           let pr := lltsaProblemD (matOf M N N) F
           pure (M, none, pr.1.data, pr.2.data)
       if threw != "-" then return s!"res=FAIL:threw what={threw}"
@@ -185,7 +185,9 @@ def answer (line : String) : String :=
   match answerCore fs with
   | .ok s => s
   | .error e =>
-    if e.startsWith "SKIP:" then "res=" ++ e
+    if e.startsWith "SKIP:" then
+      -- an implementation exception on an input the model skips is counted separately (never silently dropped)
+      (if (field? fs "threw").isSome && field? fs "threw" != some "-" then "res=SKIP:impl-threw-on-skipped-input " else "res=") ++ e
     else if e.startsWith "MODEL-ERR:" then "res=" ++ e
     else if e.startsWith "CONTRACT:" then "res=BROKEN:oracle-contract " ++ (e.drop 9).toString
     else if e == "nonuniform" then "res=SKIP:nonuniform-neighbour-lists"
